@@ -508,6 +508,63 @@ pub fn check_system(spec: &SysSpec, horizon: usize) -> (Vec<Fail>, Info) {
     (fails, info)
 }
 
+/// Systems far larger than the enumerated family (more than 2^16 states and inputs): only membership and
+/// tightness are decided for them (the reported cone equals the independent dependency search, no duplicates) -
+/// the perturbation oracle cannot tabulate them. Registers acc_i' = acc_i + din_(i mod 3) (+ acc_(i-1) for every
+/// 4096th), every second one with an init that reads the previous register.
+fn large_systems_check(rep: &Report) {
+    use patronus::system::State;
+    let n = (1usize << 16) + 5;
+    let mut ctx = Context::default();
+    let mut sys = TransitionSystem::new("large".to_string());
+    let dins: Vec<ExprRef> = (0..3).map(|k| ctx.bv_symbol(&format!("din{k}"), 2)).collect();
+    for d in dins.iter() {
+        sys.add_input(&ctx, *d);
+    }
+    let syms: Vec<ExprRef> = (0..n).map(|i| ctx.bv_symbol(&format!("acc_{i}"), 2)).collect();
+    for i in 0..n {
+        let mut nx = ctx.add(syms[i], dins[i % 3]);
+        if i > 0 && i % 4096 == 0 {
+            nx = ctx.xor(nx, syms[i - 1]);
+        }
+        let init = if i % 2 == 1 { Some(ctx.not(syms[i - 1])) } else { None };
+        sys.add_state(&ctx, State { symbol: syms[i], init, next: Some(nx) });
+    }
+    let picks = [0usize, 1, 2, 4095, 4096, 4097, 32767, 32768, 65534, 65535, 65536, 65537, n - 1];
+    for &i in picks.iter() {
+        let st_next = sys.states[i].next.unwrap();
+        for root in [syms[i], st_next] {
+            for v in 0..3 {
+                rep.add("large_system_cone_calls", 1);
+                rep.add("evaluations", 1);
+                let want = my_cone(&ctx, &sys, root, v <= 1, v == 0);
+                let fail = |class: &str, what: String| {
+                    rep.violation(Violation {
+                        sig: format!("C17|{class}|{}|w2-32|large-system", VARIANTS[v]),
+                        what: format!("[system with {n} registers] {} cone of {}: {what}", VARIANTS[v], if root == syms[i] { format!("acc_{i}") } else { format!("the next function of acc_{i}") }),
+                        case: json!({"kind": "large", "register": i}),
+                        order: (1u64 << 57) + i as u64,
+                    });
+                };
+                match real_cone(&ctx, &sys, root, v) {
+                    Err(p) => fail("panic", format!("panicked: {} ({})", p.msg, p.short_loc())),
+                    Ok(got) => {
+                        let set: BTreeSet<ExprRef> = got.iter().cloned().collect();
+                        let name = |e: &ExprRef| ctx.get_symbol_name(*e).unwrap_or("?").to_string();
+                        if set.len() != got.len() {
+                            fail("duplicate-symbol", format!("a symbol is reported more than once ({} entries, {} distinct)", got.len(), set.len()));
+                        } else if let Some(m) = want.iter().find(|e| !set.contains(e)) {
+                            fail("missing-symbol", format!("`{}` is missing (reported: {} symbols, the dependency search reaches {})", name(m), set.len(), want.len()));
+                        } else if let Some(x) = set.iter().find(|e| !want.contains(e)) {
+                            fail("extra-symbol", format!("`{}` is reported although no dependency path reaches it", name(x)));
+                        }
+                    }
+                }
+            }
+        }
+    }
+}
+
 pub fn meta(rep: &mut Report) {
     rep.rule = "systems = S1 (full pools incl. div/rem) + S3(3) of skeletons K1..K7 (thorough: S1 + S3(4) + S2(32) + S3(5) of K1/K3/K4/K7) plus hand-built shapes and an array-input system; every sub-expression node of the system (state and input symbols included) is a root; cone_of_influence / _init / _comb are called on each. Oracle: (a) only declared inputs/states; (b) set-equal to an independent dependency search (children; state -> init for full+init, state -> next for full); (c) for every symbol x outside the reported cone and every pair of reference executions differing only in x's free choices (x an input: its value at every step; x an init-less state: its initial value; x a next-less state: its value after every step) the root has the same value at every step 0..3 (quick) / 0..5 (thorough) (full), at step 0 (init), under every valuation of all states and inputs (comb). All initial states, all inputs at every step, all values of next-less states are enumerated (pair-state search on a table of all node values). evaluations = cone calls; distinct_nontrivial = distinct systems in which at least one root's cone is a strict subset of the symbols (a perturbation ran); states = pair-states visited by the perturbation search; transitions = perturbed steps compared".into();
     rep.assumptions = vec![
@@ -538,6 +595,7 @@ pub fn run(opts: &Opts, rep: &Report) {
     let skipped = AtomicU64::new(0);
     let failing: Collector<(SysSpec, Fail)> = Collector::default();
     let done = AtomicBool::new(false);
+    large_systems_check(rep);
     std::thread::scope(|sc| {
     sc.spawn(|| runaway_watchdog(rep, &done));
     specs.par_iter().enumerate().for_each(|(idx, spec)| {
@@ -596,6 +654,10 @@ pub fn run(opts: &Opts, rep: &Report) {
 }
 
 pub fn replay(case: &Value, rep: &Report) {
+    if case["kind"] == "large" {
+        large_systems_check(rep);
+        return;
+    }
     let spec = SysSpec::from_json(&case["system"]).expect("system");
     let horizon = case["horizon"].as_u64().unwrap_or(HORIZON_QUICK as u64) as usize;
     let done = AtomicBool::new(false);
